@@ -1,20 +1,51 @@
 """C06 - Beacon metadata survives RSA transport; session keys derive from it (structural part).
 
-The rules are phrased as semantic necessary conditions and locate their subjects by role:
+The rules are phrased as semantic necessary conditions and locate their subjects by role; a subject that cannot be
+located in the (normalised) code gives an undecided obligation, never a violation.
 
-* values are looked at after `inline` (single-definition temporaries substituted), arguments through their parameter
-  binding, constants through constant evaluation;
-* the rejection rules of decrypt_metadata are evaluated by a forward value propagation over the CFG (`_Flow`) for a
-  concrete scenario - the decryption result is the sentinel / the empty string / a real plaintext whose parsed magic is
-  or is not 0xBEEF: locals carry concrete or symbolic values (rebinding, flags, helper results with several returns
-  are followed), every test that can be evaluated for the values that reach it keeps only its feasible edge, and the
-  rule asks whether a return (or the struct parse) is still reached;
-* the layout and PKCS#1 bounds are compared as linear forms (`len(m) - 8`, `-8 + len(m)`, `len(m) - (4 + 4)` are the same);
-* session-key derivations are found by *classifying* expressions (SHA-256 half, (aes, hmac) pair, key container) through
-  locals, tuple unpacking, star arguments and package helpers, and checking every place where a derived value enters an
-  `aes_key` / `hmac_key` slot.
+Technique (numbers refer to the list in RULES_GUIDE.md, "What counts as static here"; nothing of /repo is executed, no
+function body, loop or expression of /repo is evaluated on data chosen by the checker: there is no loop over numeric
+ranges, lengths, byte values or sample inputs anywhere in this module)
 
-A subject that cannot be located in the (normalised) code gives an undecided obligation, never a violation.
+* R1 layout arithmetic: (1) parsed C definition, attribute stores located through def-use; (3) the stored value and the
+  array length are brought into *polynomial (linear) normal form* over the atoms len(metadata) / len(metadata.info)
+  (`_lin`: `len(m) - 8`, `-8 + len(m)`, `len(m) - (4 + 4)`, `51 + len(m.info)` are the same form) and the constant terms
+  are compared with the fixed part computed from the C definition; (6) constant folding.
+* R2 / R6(DOM) rejection rules of decrypt_metadata: (2) CFG reachability with infeasible branch edges pruned by a
+  three-valued (True / False / both-by-lemma / unknown) evaluation of the branch tests under explicit, named
+  assumptions, combined with (3)/(4) a forward data-flow propagation of the values of locals over the constant /
+  nullness / truthiness domain (`_Flow`: a work-list fixed point with joins; rebinding, flags, message variables are
+  followed; a join of different non-None values is "some non-None value"; an augmented assignment or loop target is
+  "unknown" - no loop is unrolled).  The assumptions are a case analysis (5) over the vocabulary of the code and of the
+  property - never a sample that stands for a class of inputs:
+    - decryption result: *the sentinel expression the code itself passes to decrypt()* (constant-folded (6), else an
+      opaque symbol), or *the empty bytes value* (the one value the library contract names besides the sentinel for a
+      padding failure; the claim of R6 is about exactly this value), or *a real plaintext* (an opaque symbol that is
+      truthy and not None - nothing else is known about it: its length, its content, comparisons with it are unknown);
+    - parsed magic: *0xBEEF* (the constant of the property) or *any other value of the unsigned 32-bit field* (an
+      opaque symbol with the fact `!= 0xBEEF`).
+  Tests over known constants are constant-folded (6).  Comparisons with the "any other value" symbol are decided by the
+  interval / counting lemmas written down in `_cmp_other` (is the set of admissible field values that makes the
+  comparison true / false empty?) and `x & (2^w - 1) == x for 0 <= x < 2^w`; "both outcomes occur" is only claimed for
+  one comparison of the symbol with a constant (and for a conjunction / disjunction in which every other operand is
+  decided) - correlated comparisons are not combined.  A reachable test that looks at the assumed value but cannot be
+  evaluated makes the obligation undecided.
+* R3 writer-side magic: (1) resolved callees and struct types, (3) def-use terms (`inline`, single-store attributes,
+  tuple unpacking, literal setattr tables - the table rows are read from the syntax tree, the loop is not run),
+  (6) constant folding incl. constants imported from another module.
+* R4 encrypt_metadata: (1) resolved cipher constructor and parameter binding, (2) CFG path condition "every path to
+  the serialisation passes a store of the size field (or an edge that has just established equality with the stored
+  value)", (3) the explicit length bound in linear normal form `len - k + c > 0` (`_gt0`; lemma: over the integers
+  `a >= b <=> a - b + 1 > 0`, `not (a > b) <=> b - a + 1 > 0`) compared with the PKCS#1 v1.5 bound c <= 11.
+* R5 session keys: (3) *classification* of expressions as SHA-256 half / (aes, hmac) pair / key container through
+  locals, tuple unpacking, star arguments, argument binding into package callees (function summaries) and inlined
+  helpers; (4) length domain for the halves: a SHA-256 digest has 32 bytes (`len(<digest>)` is 32), the slice bounds
+  are constant-folded (6) and normalised with `slice(lo, hi, step).indices(32)` - Python's own definition of which
+  indices a slice of a 32-element sequence selects, applied to the code's constants; the halves are the normal forms
+  (0, 16, 1) and (16, 32, 1).  Every place where a classified value enters an `aes_key` / `hmac_key` slot is checked
+  for its role, every derivation for its seed (an `aes_rand` field / the wrapper's own parameter), terms compared
+  structurally / by node identity of their defining expression.
+* R6 escape set: csverif.effects (engine; (1)/(2)).  R7: obligations of C19.R4 (imported).
 """
 
 from __future__ import annotations
@@ -71,10 +102,10 @@ def _cenv(ctx, f):
 
 # ======================================================================================================= generic helpers
 def _unbytes(e):
-    """`bytes(x)` / `cast(T, x)` -> x (a copy into an immutable bytes object does not change the value)."""
+    """`bytes(x)` / `bytearray(x)` / `memoryview(x)` / `cast(T, x)` -> x (a copy / view of a bytes value is the same value)."""
     while True:
         e = strip_cast(e)
-        if isinstance(e, ast.Call) and dotted(e.func) == "bytes" and len(e.args) == 1 and not e.keywords:
+        if isinstance(e, ast.Call) and dotted(e.func) in ("bytes", "bytearray", "memoryview") and len(e.args) == 1 and not e.keywords:
             e = e.args[0]
             continue
         return e
@@ -119,11 +150,22 @@ def _in_handler(fv, node):
     return fv.enclosing(node, (ast.ExceptHandler,))
 
 
-def _raise_cls(fv, r):
-    """Class raised by `r`; a bare `raise` / `raise e` inside `except X as e` re-raises X."""
+def _raise_cls(fv, r, flow=None):
+    """Class raised by `r`; a bare `raise` / `raise e` inside `except X as e` re-raises X; `raise err` of a local that
+    holds a constructed exception raises that class (value flow `flow`, else every definition of the local)."""
     h = _in_handler(fv, r)
     if r.exc is None or (h is not None and h.name and isinstance(r.exc, ast.Name) and r.exc.id == h.name):
         return dotted(h.type) if h is not None and h.type is not None else None
+    if isinstance(r.exc, ast.Name):
+        if flow is not None:
+            v = flow.value(r, r.exc)
+            if isinstance(v, _Sym) and v.cls:
+                return v.cls
+        from csverif.q import all_origins
+
+        outs = [o for o in all_origins(fv.fn, r.exc) if not (isinstance(o, ast.Constant) and o.value is None)]
+        names = {dotted(o.func) if isinstance(o, ast.Call) else None for o in outs}
+        return names.pop() if len(names) == 1 and None not in names else None
     return raise_class(r)
 
 
@@ -154,6 +196,10 @@ def _lin(e, atom=None):
                 a = _lin(y, atom)
                 return None if a is None else {n: k * v for n, v in a.items()}
         return None
+    if isinstance(e, ast.Call) and dotted(e.func) == "sum" and len(e.args) == 1 and not e.keywords:
+        seq = _c(e.args[0])
+        if isinstance(seq, (tuple, list)) and all(isinstance(x, int) and not isinstance(x, bool) for x in seq):
+            return {"": sum(seq)}
     if isinstance(e, (ast.Name, ast.Attribute, ast.Call, ast.Subscript)):
         return {(atom(e) if atom else None) or src(e): 1}
     return None
@@ -182,17 +228,29 @@ def _gt0(left, op, right, pol, atom):
     return _lin_norm(out)
 
 
-# ------------------------------------------------------------------------------ concrete evaluation of tests, CFG slices
+# ----------------------------------------------------- three-valued evaluation of tests under assumptions, value flow
 class _Unk(Exception):
     pass
 
 
+class _Both(_Unk):
+    """The test is not decided by the assumptions *and both outcomes are possible under them* (a stated lemma says so):
+    both branch edges are feasible, and this is a fact, not a gap of the evaluation."""
+
+
+BOTH = "both"
+
+
 class _Sym:
     """An opaque run-time value: identical/equal to itself only.  `truth` (None = unknown) and `notnone` are the facts
-    assumed about it."""
+    assumed about it.  An `anon` symbol stands for *some* value with those facts (several different values may be
+    represented by the same anonymous symbol: it is never equal / identical to anything, itself included)."""
 
-    def __init__(self, label, truth=None, notnone=False):
-        self.label, self.truth, self.notnone = label, truth, notnone
+    def __init__(self, label, truth=None, notnone=False, anon=False, cls=None, ne=(), width=None, masked=None):
+        self.label, self.truth, self.notnone, self.anon, self.cls = label, truth, notnone, anon, cls
+        # an unsigned integer field of `width` bits about which only `value not in ne` is assumed ("any other value");
+        # masked = (that symbol, M): the symbol is `value & M`
+        self.ne, self.width, self.masked = frozenset(ne), width, masked
 
     def __repr__(self):
         return f"<{self.label}>"
@@ -220,6 +278,24 @@ _BIN = {
 _TYPES = {"bytes": bytes, "bytearray": bytearray, "str": str, "int": int, "bool": bool, "memoryview": memoryview}
 
 
+_ANON = {}
+
+
+def _anon(truth, cls=None):
+    """The canonical anonymous non-None value with the given truthiness (and, for a constructed object, class name)."""
+    k = (truth, cls)
+    if k not in _ANON:
+        _ANON[k] = _Sym(f"some non-None value (truth {truth}, class {cls})", truth=truth, notnone=True, anon=True, cls=cls)
+    return _ANON[k]
+
+
+def _facts(v):
+    """(is known not to be None, truthiness | None, class name of a constructed object | None)"""
+    if isinstance(v, _Sym):
+        return v.notnone, v.truth, v.cls
+    return v is not None, bool(v), None
+
+
 def _truth(v):
     if isinstance(v, _Sym):
         if v.truth is None:
@@ -229,7 +305,9 @@ def _truth(v):
 
 
 def _val(e, env):
-    """Value of expression e when the expressions whose text is a key of env have the given values."""
+    """Value of expression e when the expressions whose text is a key of env have the assumed values: constant folding
+    over the constants of the code and of the assumptions; anything that involves an opaque symbol beyond the facts
+    recorded for it (truthiness, not None, `!=` constants of an integer field) is unknown (_Unk)."""
     k = src(e)
     if k in env:
         return env[k]
@@ -260,6 +338,10 @@ def _val(e, env):
         return _val(e.body if _truth(_val(e.test, env)) else e.orelse, env)
     if isinstance(e, ast.NamedExpr):
         return _val(e.value, env)
+    if isinstance(e, ast.JoinedStr):
+        # a formatted string: a str, non-empty when it has a non-empty literal part
+        lit = any(isinstance(p, ast.Constant) and p.value for p in e.values)
+        return _anon(True if lit else None)
     if isinstance(e, ast.Attribute):
         b = _val(e.value, env)
         if isinstance(b, _Sym) and (b.label, e.attr) in env:
@@ -267,6 +349,13 @@ def _val(e, env):
         raise _Unk()
     if isinstance(e, ast.BinOp) and type(e.op) in _BIN:
         a, b = _val(e.left, env), _val(e.right, env)
+        if isinstance(e.op, ast.BitAnd) and (isinstance(a, _Sym) != isinstance(b, _Sym)):
+            o, m = (a, b) if isinstance(a, _Sym) else (b, a)
+            if o.width and isinstance(m, int) and not isinstance(m, bool) and not o.masked:
+                full = (1 << o.width) - 1
+                if m & full == full:
+                    return o  # x & 0xFF..F == x for a field of that width
+                return _Sym(f"{o.label} & {m:#x}", anon=True, notnone=True, masked=(o, m & full))
         if isinstance(a, _Sym) or isinstance(b, _Sym):
             raise _Unk()
         try:
@@ -274,11 +363,24 @@ def _val(e, env):
         except Exception:
             raise _Unk()
     if isinstance(e, ast.Compare):
-        left = _val(e.left, env)
+        # "both outcomes occur" (_Both) is a statement about *one* comparison of the assumed value with a constant: it is
+        # not handed on from an operand, nor from a link of a chain (the links of a chain are correlated)
+        def operand(x):
+            try:
+                return _val(x, env)
+            except _Both:
+                raise _Unk()
+
+        left = operand(e.left)
         for op, rn in zip(e.ops, e.comparators):
-            right = _val(rn, env)
-            if not _cmp(left, op, right):
-                return False
+            right = operand(rn)
+            try:
+                if not _cmp(left, op, right):
+                    return False
+            except _Both:
+                if len(e.ops) == 1:
+                    raise
+                raise _Unk()
             left = right
         return True
     if isinstance(e, ast.Subscript):
@@ -306,6 +408,8 @@ def _val(e, env):
                 return len(v)
             except Exception:
                 raise _Unk()
+        if name and name.split(".")[-1][:1].isupper() and name.split(".")[-1].endswith(("Error", "Exception", "Warning")):
+            return _anon(True, name.split(".")[-1])  # an exception object
         if name == "isinstance" and len(e.args) == 2:
             v = _val(e.args[0], env)
             ts = e.args[1].elts if isinstance(e.args[1], ast.Tuple) else [e.args[1]]
@@ -315,8 +419,74 @@ def _val(e, env):
     raise _Unk()
 
 
+def _free(o, lo, hi):
+    """Number of values v of the field o with lo <= v < hi that are not excluded: size of the interval clipped to the range
+    of the field minus the excluded constants that lie in it (interval arithmetic; the field is not enumerated)."""
+    lo, hi = max(lo, 0), min(hi, 1 << o.width)
+    return max(hi - lo, 0) - sum(1 for x in o.ne if isinstance(x, int) and lo <= x < hi)
+
+
+_FLIP = {ast.Lt: ast.Gt, ast.LtE: ast.GtE, ast.Gt: ast.Lt, ast.GtE: ast.LtE}
+
+
+def _cmp_other(o, op, k, mirrored):
+    """Comparison of o = "any value of the field except those in o.ne" (or such a value masked) with the constant k.
+    Lemmas (v ranges over V = the unsigned `width`-bit values not in the finite set ne; |S| is counted by `_free`):
+      * v == k: the values of V that make it true are V & {k}, those that make it false V - {k}.  So it is False for k in
+        ne or out of range; otherwise true for v = k, and false for some v iff |V| >= 2 (both outcomes occur);
+      * v in (k1, .., kn): true on V & {k1..kn}, false on V - {k1..kn}; decided / both outcomes by the same counting;
+      * v < k (<=, >, >=; `k < v` is `v > k`): true exactly on an interval of the field ([0, k), [0, k], (k, 2^w),
+        [k, 2^w)), false on its complement; the outcome is decided if one of the two sets has no element of V, and both
+        outcomes occur if both have one;
+      * (v & M) == (c & M) for ne == {c} and M neither 0 nor all ones: both outcomes occur (v = c with a bit outside M
+        flipped is in V and agrees with c on M; v = c with a bit inside M flipped is in V and disagrees on M)."""
+    if isinstance(k, _Sym) or isinstance(k, bool) or not isinstance(k, (int, tuple)):
+        raise _Unk()
+    if o.masked is not None:
+        base, m = o.masked
+        full = (1 << base.width) - 1
+        if isinstance(op, (ast.Eq, ast.NotEq)) and isinstance(k, int) and len(base.ne) == 1 and 0 < m < full and k == (next(iter(base.ne)) & m):
+            raise _Both()
+        raise _Unk()
+    total = _free(o, 0, 1 << o.width)
+    if isinstance(op, (ast.Eq, ast.NotEq, ast.In, ast.NotIn)):
+        if isinstance(op, (ast.In, ast.NotIn)):
+            if mirrored or not isinstance(k, tuple) or not all(isinstance(x, int) and not isinstance(x, bool) for x in k):
+                raise _Unk()
+            members = set(k)
+        elif isinstance(k, int):
+            members = {k}
+        else:
+            raise _Unk()
+        yes = sum(_free(o, x, x + 1) for x in members)  # elements of V that make `==` / `in` true
+        no = total - yes
+        positive = isinstance(op, (ast.Eq, ast.In))
+    elif type(op) in _FLIP and isinstance(k, int):
+        t = _FLIP[type(op)] if mirrored else type(op)
+        lo, hi = {ast.Lt: (0, k), ast.LtE: (0, k + 1), ast.Gt: (k + 1, 1 << o.width), ast.GtE: (k, 1 << o.width)}[t]
+        yes = _free(o, lo, hi)
+        no = total - yes
+        positive = True
+    else:
+        raise _Unk()
+    if yes > 0 and no > 0:
+        raise _Both()
+    if yes > 0 or no > 0:
+        return (yes > 0) == positive
+    raise _Unk()
+
+
 def _cmp(a, op, b):
+    for o, k, mirrored in ((a, b, False), (b, a, True)):
+        if isinstance(o, _Sym) and (o.width or o.masked is not None):
+            return _cmp_other(o, op, k, mirrored)
     sym = isinstance(a, _Sym) or isinstance(b, _Sym)
+    if any(isinstance(x, _Sym) and x.anon for x in (a, b)):
+        # only `is (not) None` / `== None` is decided for an anonymous value
+        o, k = (a, b) if isinstance(a, _Sym) and a.anon else (b, a)
+        if k is None and o.notnone and isinstance(op, (ast.Is, ast.IsNot, ast.Eq, ast.NotEq)):
+            return isinstance(op, (ast.IsNot, ast.NotEq))
+        raise _Unk()
     if isinstance(op, (ast.Is, ast.IsNot)):
         single = (None, True, False)
         if sym:
@@ -361,23 +531,30 @@ def _cmp(a, op, b):
 
 
 def _tv(e, env):
-    """Three-valued truth of a test (None = not decidable for the given values)."""
+    """Truth of a test under the assumptions: True / False / BOTH (both outcomes are possible, by a lemma) / None (not
+    decidable by this evaluation)."""
     if isinstance(e, ast.UnaryOp) and isinstance(e.op, ast.Not):
         v = _tv(e.operand, env)
-        return None if v is None else not v
+        return v if v in (None, BOTH) else not v
     if isinstance(e, ast.BoolOp):
         stop = not isinstance(e.op, ast.And)  # `and` is decided by a false operand, `or` by a true one
-        unknown = False
+        seen = []
         for x in e.values:
             v = _tv(x, env)
             if v is stop:
-                # everything before it was either passed (known) or unknown; in both cases the result has this truth
+                # everything before it was either passed or open; in all cases the result has this truth
                 return stop
-            if v is None:
-                unknown = True
-        return None if unknown else (not stop)
+            seen.append(v)
+        if None in seen:
+            return None
+        # all other operands passed and exactly one is open: the result is that operand's, both outcomes occur.  Two open
+        # operands may be correlated (`v < k or v > k`): nothing is claimed
+        return (not stop) if BOTH not in seen else BOTH if seen.count(BOTH) == 1 else None
     try:
         return _truth(_val(e, env))
+    except _Both:
+        # only a single comparison `assumed value <op> constant` carries the lemma (see _val / _cmp_other)
+        return BOTH if isinstance(e, ast.Compare) and len(e.ops) == 1 else None
     except _Unk:
         return None
 
@@ -386,13 +563,24 @@ def _same_value(a, b):
     return a is b or (not isinstance(a, _Sym) and not isinstance(b, _Sym) and type(a) is type(b) and a == b)
 
 
+def _join_value(a, b):
+    """Least upper bound of two values of a local at a merge point: the value if both agree, an anonymous non-None value
+    if both are known not to be None (`error = "a"` / `error = f"b {x}"` are both `is not None`), else unknown (None)."""
+    if _same_value(a, b):
+        return a
+    (na, ta, ca), (nb, tb, cb) = _facts(a), _facts(b)
+    if na and nb:
+        return _anon(ta if ta == tb else None, ca if ca == cb else None)
+    return _Flow.NOVAL
+
+
 def _stored_names(t):
     return [n.id for n in ast.walk(t) if isinstance(n, ast.Name) and isinstance(n.ctx, (ast.Store, ast.Del))]
 
 
 class _Flow:
-    """Forward propagation of concrete / symbolic values of locals along the CFG of f under the assumptions `fixed`
-    (an _Env: expression text -> value).  Branch edges whose test evaluates to a definite truth value for the values that
+    """Forward data-flow propagation (work list, joins at merge points) of constant / symbolic values of locals along the
+    CFG of f under the assumptions `fixed` (an _Env: expression text -> assumed constant or symbol).  Branch edges whose test evaluates to a definite truth value for the values that
     reach it are followed on the feasible side only.  After the run: `live(stmt)`, `value(stmt, expr)`, `opaque` = the
     reached tests that could not be evaluated although they look at a tainted value (`taint`: expression texts; the
     taint flows through assignments but not through the sub-expressions whose text is in `stop`)."""
@@ -499,7 +687,12 @@ class _Flow:
     def _join(self, old, new):
         if old is None:
             return new
-        vals = {k: v for k, v in old[0].items() if k in new[0] and _same_value(v, new[0][k])}
+        vals = {}
+        for k, v in old[0].items():
+            if k in new[0]:
+                j = _join_value(v, new[0][k])
+                if j is not _Flow.NOVAL:
+                    vals[k] = j
         return vals, old[1] | new[1]
 
     @staticmethod
@@ -520,10 +713,10 @@ class _Flow:
                 if isinstance(st, (ast.If, ast.While)):
                     v = self._truth3(st.test, out[0])
                     self._opaque.pop(id(st), None)
-                    if v is not None:
+                    if v is True or v is False:
                         dead = cfg.edge_node(st, "false" if v else "true")
                         succs = [x for x in succs if x != dead]
-                    elif self._looks_at(st.test, out[1]):
+                    elif v is None and self._looks_at(st.test, out[1]):
                         self._opaque[id(st)] = st
             else:
                 out = (vals, names)
@@ -602,14 +795,28 @@ def run(ctx):
     rep = ctx.rep
     rep.explanation = (
         "Static analysis of c_c2.py/c2.py/client.py: BeaconMetadata layout arithmetic from C2_DEF (fixed part 59 bytes, "
-        "size-51 array, len-8 size field, compared as linear forms), reachability of a return / the struct parse in "
-        "decrypt_metadata when the decryption result is the sentinel or empty or the magic field is not 0xBEEF (CFG "
-        "specialised by concrete evaluation of the tests), writer/reader agreement on the magic and the RSA cipher "
-        "construction, and role checks of every session-key derivation (SHA-256 halves reaching aes_key / hmac_key slots, "
-        "derived from the 16 aes_rand bytes)."
+        "size-51 array, len-8 size field, compared as linear normal forms), CFG reachability of a return / of the struct "
+        "parse in decrypt_metadata under the named cases 'the decryption result is the sentinel the code passes', 'it is "
+        "the empty bytes value', 'it is a real plaintext whose parsed magic is 0xBEEF / is any other 32-bit value' "
+        "(forward propagation of constants, nullness and truthiness; branch tests evaluated three-valued, comparisons "
+        "with the symbolic magic decided by interval lemmas; infeasible edges pruned), writer/reader agreement on the "
+        "magic and the RSA cipher construction, the PKCS#1 v1.5 length bound as a linear form, and role checks of every "
+        "session-key derivation (SHA-256 halves by normalised constant slice bounds reaching aes_key / hmac_key slots, "
+        "derived from the 16 aes_rand bytes).  No code of the repository is executed or evaluated on sample inputs."
     )
-    rep.not_decided = ["field-for-field equality after RSA for all values", "PKCS#1 v1.5 limits (library)"]
-    rep.trusted_base = ["CPython ast", "networkx dominators", "C-definition parser", "pycryptodome PKCS1_v1_5 sentinel semantics"]
+    rep.not_decided = [
+        "field-for-field equality after RSA for all values (cstruct dumps/parse round trip and RSA are library behaviour)",
+        "PKCS#1 v1.5 limits (library)",
+        "rejection tests of decrypt_metadata that combine several correlated comparisons of the magic, or compute with the plaintext, are reported undecided",
+    ]
+    rep.trusted_base = [
+        "CPython ast", "networkx dominators", "C-definition parser",
+        "pycryptodome PKCS1_v1_5 semantics: decrypt() hands back the sentinel argument or b'' for a padding failure; a message longer than k - 11 bytes cannot be encrypted",
+        "hashlib: a SHA-256 digest has 32 bytes; slice(lo, hi, step).indices(32) is the definition of the selected indices",
+        "lemma: for an unsigned w-bit field value v not in a finite set ne, `v <op> k` has a true (false) instance iff the interval / point set of field values that makes it true (false) contains a value outside ne (counted, not enumerated)",
+        "lemma: x & (2^w - 1) == x for 0 <= x < 2^w; (v & M) == (c & M) has both outcomes for v != c when M is neither 0 nor all ones (flip a bit outside / inside M)",
+        "lemma: over the integers a >= b <=> a - b + 1 > 0 and not (a > b) <=> b - a + 1 > 0 (linear normal form of the length bound)",
+    ]
     from csverif import AnalysisError
 
     for rule in (r1, r2, r3_r4, r5, r6):
@@ -788,6 +995,9 @@ def r2(ctx):
     fn = f.node
     cfg = ctx.cfg(f)
     fv = FuncView.of(fn)
+    if any(isinstance(n, ast.Match) for n in ast.walk(fn)):
+        ctx.undecided("R2", "DOM", f, "rejection tests", "decrypt_metadata branches with `match` statements, which the control-flow graph does not model")
+        return
     ctx.ob("R2", "EXIT", f, "falls off end", not cfg.falls_off_end(), "cannot return None implicitly")
     if d is None:
         ctx.undecided("R2", "DOM", f, "RSA decryption of the blob", f"cannot locate the PKCS#1 decryption: {ctor}")
@@ -806,7 +1016,7 @@ def r2(ctx):
         sv = inline(fn, sentinel)
         also = ()
         try:
-            val = const_eval(sv)
+            val = const_eval(sv, _cenv(ctx, f))
         except NotConst:
             val = _Sym("sentinel")
             also = (src(sv), src(sentinel))
@@ -819,7 +1029,7 @@ def r2(ctx):
             ctx.ob("R2", "DOM", f, "sentinel test", not leak, detail, dst)
         for rs in cfg.raise_stmts():
             if fl.live(rs) and not leak:
-                cls = _raise_cls(fv, rs)
+                cls = _raise_cls(fv, rs, fl)
                 if cls is None:
                     ctx.undecided("R2", "EXIT", f, "undecryptable blob: raised class", f"class of `{src(rs)[:60]}` not determined", rs)
                 else:
@@ -876,29 +1086,31 @@ def r2(ctx):
         else:
             ctx.ob("R2", "AGREE", f, "returned object", True, "returns BeaconMetadata parsed from the decrypted bytes", r)
     # ---- ... and only if its magic is 0xBEEF
-    wrong = (0, 1, MAGIC - 1, MAGIC + 1, 0xBEEF0000, 0xEFBE0000, 0x1BEEF, 0xFFFFFFFF)
-    flows = {w: _scenario(ctx, f, d, plain, magic=w) for w in wrong}
-    tested = any(isinstance(k, tuple) and k[1] == "magic" for fl in [good, *flows.values()] for k in fl.fixed.hits)
+    # case analysis over the vocabulary of the property: the magic is 0xBEEF (scenario `good`), or it is any other value
+    # of the unsigned 32-bit field (scenario `bad`: a symbol about which only `!= 0xBEEF` is assumed; comparisons with
+    # it are decided by the lemmas of _cmp_other, never by trying values)
+    other = _Sym("any magic but 0xBEEF", truth=None, notnone=True, ne=(MAGIC,), width=32)
+    bad = _scenario(ctx, f, d, plain, magic=other)
+    tested = any(isinstance(k, tuple) and k[1] == "magic" for fl in (good, bad) for k in fl.fixed.hits)
     accepted = any(good.live(r) for r in rets)
     where = rets[0] if len(rets) == 1 else f.node
     if not tested:
-        und = [s for fl in flows.values() for s in fl.opaque] + good.opaque
+        und = bad.opaque + good.opaque
         if und:
             ctx.undecided("R2", "DOM", f, "magic test", f"the magic of the parsed object is tested in a way that could not be evaluated: {[src(s.test)[:50] for s in und][:2]}", where)
         else:
             ctx.ob("R2", "DOM", f, "magic test", False, "no test of the magic field of the parsed object", where)
     else:
-        leaks = [w for w in wrong if any(flows[w].live(r) for r in rets)]
-        opq = [s for w in leaks for s in flows[w].opaque]
-        detail = f"magic values with which a return is still reachable: {[hex(w) for w in leaks]} (none allowed); metadata with magic 0xBEEF is returned={accepted}"
-        if (leaks and opq) or (not accepted and good.opaque):
-            ctx.undecided("R2", "DOM", f, "magic test", detail + f"; a test could not be evaluated: {[src(s.test)[:50] for s in (opq or good.opaque)][:2]}", where)
+        leak = [r for r in rets if bad.live(r)]
+        detail = f"with a magic other than 0xBEEF a return is still reachable={bool(leak)} (must not be); metadata with magic 0xBEEF is returned={accepted}"
+        if (leak and bad.opaque) or (not accepted and good.opaque):
+            ctx.undecided("R2", "DOM", f, "magic test", detail + f"; a test could not be evaluated: {[src(s.test)[:50] for s in (bad.opaque if leak else good.opaque)][:2]}", where)
         else:
-            ctx.ob("R2", "DOM", f, "magic test", not leaks and accepted, detail, where)
-        if not leaks:
+            ctx.ob("R2", "DOM", f, "magic test", not leak and accepted, detail, where)
+        if not leak:
             for rs in cfg.raise_stmts():
-                if flows[0].live(rs) and not good.live(rs):
-                    cls = _raise_cls(fv, rs)
+                if bad.live(rs) and not good.live(rs):
+                    cls = _raise_cls(fv, rs, bad)
                     if cls is None:
                         ctx.undecided("R2", "EXIT", f, "bad magic: raised class", f"class of `{src(rs)[:60]}` not determined", rs)
                     else:
@@ -1131,14 +1343,20 @@ def _digest_of(ctx, f, e):
 
 def _half(ctx, f, sub, base):
     """Which half of a 32-byte digest the (inlined) slice expression `sub` of digest expression `base` selects: 'aes'
-    (first 16), 'hmac' (last 16), 'bad', or None (bounds not evaluable).  The slice is evaluated on a dummy digest, so
-    `d[:16]`, `d[0:16]`, `d[:-16]`, `d[:len(d) // 2]`, `d[:KEY_SIZE]` are all the first half."""
-    dummy = bytes(range(32))
-    try:
-        v = _val(sub, _Env({src(base): dummy}, consts=_cenv(ctx, f)))
-    except _Unk:
+    (first 16), 'hmac' (last 16), 'bad', or None (bounds not constant).  Length domain: a SHA-256 digest has exactly 32
+    bytes (so `len(<digest>)` folds to 32), and `slice(lo, hi, step).indices(32)` is Python's normalisation of slice
+    bounds for a sequence of that length - `d[:16]`, `d[0:16]`, `d[:-16]`, `d[:len(d) // 2]` all normalise to (0, 16, 1)."""
+    if not (isinstance(sub, ast.Subscript) and isinstance(sub.slice, ast.Slice)):
         return None
-    return "aes" if v == dummy[:16] else "hmac" if v == dummy[16:] else "bad"
+    env = _Env({f"len({src(base)})": 32, f"len({src(_unbytes(base))})": 32}, consts=_cenv(ctx, f))
+    try:
+        lo, hi, stp = (None if x is None else _val(x, env) for x in (sub.slice.lower, sub.slice.upper, sub.slice.step))
+        if not all(x is None or (isinstance(x, int) and not isinstance(x, bool)) for x in (lo, hi, stp)):
+            return None
+        norm = slice(lo, hi, stp).indices(32)
+    except (_Unk, ValueError):
+        return None
+    return "aes" if norm == (0, 16, 1) else "hmac" if norm == (16, 32, 1) else "bad"
 
 
 def _item(d, i):
@@ -1221,13 +1439,25 @@ def _bind_slots(ctx, f, call, depth=0):
         names = params(cal.func.node)
         if _is_method(cal.func) and names:
             names = names[1:]
+    args = call.args
+    if names is None and isinstance(call.func, ast.Attribute) and call.func.attr == "_make" and len(call.args) == 1 and not call.keywords:
+        # NamedTuple._make(iterable): the elements of a literal sequence fill the fields in order
+        t = ctx.rs.expr_type(f, call.func.value) or ""
+        t = t[5:] if t.startswith("type:") else None
+        if t is None and dotted(call.func.value):
+            sym = ctx.rs.lookup_dotted(f.module.name, dotted(call.func.value))
+            t = sym.fq if sym is not None and sym.kind == "class" else None
+        seq = inline(f.node, call.args[0])
+        if t and isinstance(seq, (ast.Tuple, ast.List)) and not ctx.repo.has_func(t + ".__init__"):
+            names = _class_fields(ctx, t)
+            args = seq.elts
     if names is None:
         if any(k.arg in _SLOTS for k in call.keywords):
             return {k.arg: k.value for k in call.keywords if k.arg}
         return None
     out = {}
     pos = 0
-    for a in call.args:
+    for a in args:
         if isinstance(a, ast.Starred):
             d = _classify(ctx, f, a.value, depth + 1)
             if d is not None and d.kind == "pair":
@@ -1296,12 +1526,12 @@ def _classify(ctx, f, e, depth=0):
         if isinstance(e.slice, ast.Slice):
             whole = inline(fn, e)
             base = whole.value if isinstance(whole, ast.Subscript) else None
-            dg = _digest_of(ctx, f, base) if base is not None else None
+            dg = _digest_of(ctx, f, _unbytes(base)) if base is not None else None
             if dg is None:
                 return None
             algo, data = dg
             # prefer the original node of the hashed data (keeps node identity for `_def_node`)
-            o = origin(fn, e.value)
+            o = _unbytes(origin(fn, e.value))
             if isinstance(o, ast.Call) and isinstance(o.func, ast.Attribute) and o.func.attr == "digest":
                 ho = origin(fn, o.func.value)
                 dgo = _digest_of(ctx, f, ast.Call(func=ast.Attribute(value=ho, attr="digest", ctx=ast.Load()), args=[], keywords=[])) if isinstance(ho, ast.Call) else None
@@ -1350,9 +1580,9 @@ def _classify(ctx, f, e, depth=0):
                 return _D(s.kind, None)
             b = bind_args(e, g.node, skip_self=_is_method(g))
             return _D(s.kind, _subst(s.seed, {p: b.get(p) for p in params(g.node)}))
-        if cal.kind == "class":
+        if cal.kind == "class" or (isinstance(e.func, ast.Attribute) and e.func.attr == "_make"):
             slots = _bind_slots(ctx, f, e, depth)
-            if slots and "aes_key" in slots:
+            if slots and "*" in slots and "aes_key" in slots:
                 a = _classify(ctx, f, slots["aes_key"], depth + 1)
                 if a is not None and a.kind in ("aes", "bad"):
                     return a if a.kind == "bad" else _D("keys", a.seed)
@@ -1396,13 +1626,20 @@ def _sinks(ctx, f):
                 if d is not None:
                     got.setdefault(slot, []).append(d)
         names = slots.get("*")
+        if names and any(n in _SLOTS for n in names):
+            # a derived half that is handed to another parameter / field of a callee that has key slots is misplaced
+            for slot, v in slots.items():
+                if slot not in _SLOTS and slot != "*":
+                    d = _classify(ctx, f, v)
+                    if d is not None and d.kind in ("aes", "hmac"):
+                        got.setdefault(d.kind + "_key", []).append(_D("bad", None, f"nothing: the derived {d.kind} half is passed as `{slot}`"))
         if any(x.kind == "aes" for x in got.get("aes_key", [])) and names and "hmac_key" in names and not any(isinstance(a, ast.Starred) for a in c.args):
             h = slots.get("hmac_key")
             if h is None or (isinstance(h, ast.Constant) and h.value is None):
                 got.setdefault("hmac_key", []).append(_D("bad", None, "nothing (left to its default): the derived HMAC key is dropped"))
         if got:
             cal = ctx.rs.resolve_call(f, c)
-            who = cal.fq if cal.kind in ("class", "func") and cal.fq else (cal.func.fq if cal.func is not None else "call")
+            who = cal.fq if cal.kind in ("class", "func") and cal.fq else (cal.func.fq if cal.func is not None else (dotted(c.func) or "call").split(".")[-1])
             out.append((f"{who}(..)", c, got))
     return out
 
@@ -1545,7 +1782,7 @@ def r5(ctx):
         ctx.ob("R5", "AGREE", run, text, False, "the client builds a BeaconMetadata but never stores its aes_rand")
     else:
         ctx.undecided("R5", "AGREE", run, text, "no BeaconMetadata construction / aes_rand store located in run()")
-    ctx.rep.count("derivation_sites", n_sites, floor=11)
+    ctx.rep.count("derivation_sites", n_sites, floor=6)
 
 
 # ================================================================================================================== R6
@@ -1557,8 +1794,8 @@ def r6(ctx):
     # the emptiness of the decrypted plaintext is tested as well: some pycryptodome versions hand back b"" instead of
     # the (non-bytes) sentinel for a padding failure
     f, d, _ctor = _decrypt_subject(ctx)
-    if d is None:
-        ctx.undecided("R6", "DOM", f, "empty plaintext rejected", "cannot locate the PKCS#1 decryption")
+    if d is None or any(isinstance(n, ast.Match) for n in ast.walk(f.node)):
+        ctx.undecided("R6", "DOM", f, "empty plaintext rejected", "cannot locate the PKCS#1 decryption" if d is None else "`match` statements are not modelled by the control-flow graph")
         return
     fv = FuncView.of(f.node)
     fl = _scenario(ctx, f, d, b"")
